@@ -69,7 +69,7 @@ E_IFC, E_OOM, E_DUP, E_OOSS, E_LONG = 5, 7, 10, 14, 15
 MEMFAIL = (E_OOM, E_OOSS)
 
 PROGRAM = [
-    b'1 DEF FNS$(X$)=X$+"!":DEF FNT$(B$)=B$+"?":END',
+    b'1 DEF FNS$(X$)=X$+"!":DEF FNT$(B$)=B$+"?":DEF FNN$(N)=STRING$(N,"*"):END',
     b'10 A$="a":END',
     b'20 A$="bcdef":END',
     b'30 B$="ghijklmno":END',
@@ -79,7 +79,7 @@ PROGRAM = [
     b'70 RSET B$="q":END',
     b'80 C$(1)="rs":END',
 ]
-SETUP = b'A$="":B$="":X=0:DIM C$(2)'
+SETUP = b'A$="":B$="":X=0:N=0:DIM C$(2)'
 
 # (label, mode, statement / line number)
 OPS = [
@@ -111,12 +111,16 @@ OPS = [
     ('copy-elem-gc', 'D', b'A$=C$(FRE("")*0+1)'),
     ('elem0-chr', 'D', b'C$(0)=CHR$(65)'),
     ('copy-elem0-gc', 'D', b'B$=C$(FRE("")*0)'),
+    # an expression abandoned by an error while it holds string temporaries
+    ('expr-error', 'D', b'A$=B$+C$(1)+CHR$(300)'),
+    # a user function without string parameter called while the expression holds a temporary
+    ('fn-num-after-temp', 'D', b'A$=LEFT$(B$,2)+FNN$(2)'),
 ]
 LABELS = [o[0] for o in OPS]
 QUICK_OPS = [LABELS.index(l) for l in (
     'lit5-code', 'lit9-code', 'append-code', 'midset', 'lset', 'copy', 'concat-elem', 'swap', 'swap-elem',
     'elem-concat', 'erase', 'temps-only', 'fn-param-live', 'too-long', 'copy-elem-gc', 'elem0-chr', 'copy-elem0-gc',
-    'rset')]
+    'rset', 'expr-error', 'fn-num-after-temp')]
 
 # memory configurations: free bytes of the set-up session
 CONFIGS = {'f12': 12, 'f24': 24, 'f40': 40, 'big': None}
@@ -248,6 +252,13 @@ def ref_step(ref, label):
     elif label == 'too-long':
         n.a = b'z' * 200
         need = 1 + 200
+    elif label == 'expr-error':
+        c1 = elems()[1]
+        need += len(b + c1)
+        return E_IFC, (n if n.c is not ref.c else ref), need
+    elif label == 'fn-num-after-temp':
+        n.a = b[:2] + b'**'
+        need = len(b[:2]) + 2 + len(n.a)
     else:
         raise CheckError('unknown op %r' % label)
     if len(n.a) > 255 or len(n.b) > 255:
@@ -472,7 +483,7 @@ def step(cfg, s, ref, opi, viols):
                           '%s failed with error %d although it needs at most %d bytes and %d are free '
                           'after a collection (A$=%r B$=%r)' % (label, r.err, need, F, ref.a, ref.b)))
             return None, 'spurious-oom'
-        if ref.c is None and new_ref.c is not None and exp_err is None:
+        if ref.c is None and new_ref.c is not None:
             # the statement had to dimension C$(0..10) first: that part may have succeeded
             try:
                 now = s.get_variable('C$()')
@@ -491,7 +502,7 @@ def step(cfg, s, ref, opi, viols):
                       '%s gave error %r, reference semantics expect %r' % (label, r.err, exp_err)))
         return None, 'diverged'
     collected = _current(s) > before
-    return (new_ref if exp_err is None else ref), (
+    return new_ref, (
         ('ok' if exp_err is None else 'err%d' % exp_err) + ('+gc' if collected else ''))
 
 
